@@ -685,6 +685,76 @@ class C20(PropBase):
                          (["@D", "--", "@S"], dict(sym="p")), (["--features=stable-all", "@D", "--", "@S"], dict(sym="p", feat=1))):
             inp = kw.pop("inp", "F:test.dmp")
             argv_case("argv_forms", "S", toks, inp, **kw)
+        # P. argument vectors by mutation: an accepted command line with 0-3 random edits (another case for a token, an option
+        #    duplicated somewhere, a value dropped or replaced by a near miss / another documented value, an option name replaced
+        #    by a near miss, --, --help, -h, -V, --version inserted anywhere, = form <-> space form, an option dropped).  Tag F: the
+        #    oracle only knows what holds for EVERY command line (no panic, status 0 / 1 / 2, a failing run writes nothing, a
+        #    successful one writes something); the model of the parser predicts the rest and is compared.  No edit moves a path
+        #    token, so the minidump is never at the same time a sink
+        def fuzz_vector():
+            modes, brief, pretty = rng.choice(ACCEPTED)
+            kw = dict(modes=modes, brief=brief, pretty=pretty, feat=rng.choice([9, 9, 0, 1, 2]), rfa=rng.below(2) if rng.chance(1, 4) else 0,
+                      out=rng.choice(["-", "g"]), log_=rng.choice(["-", "-", "g"]), verbose=rng.choice(["e", "e", "error", "warn", "off", "trace"]))
+            toks = base_argv(eq=False, **kw)
+            # group into units: [name, value] or [flag]; the minidump stays the last unit
+            units, i = [], 0
+            while i < len(toks):
+                if toks[i].startswith("--") and i + 1 < len(toks) and not toks[i + 1].startswith("--") and toks[i + 1] != "@D":
+                    units.append([toks[i], toks[i + 1]])
+                    i += 2
+                else:
+                    units.append([toks[i]])
+                    i += 1
+            opts, dump = units[:-1], units[-1]
+            if rng.chance(1, 3):
+                extra = rng.choice([["--no-color"], ["--no-interactive"], ["--symbols-download-timeout-secs", rng.choice(["5", "0", "x", "-3"])],
+                                    ["--symbols-cache", "@O.cache"], ["--symbols-tmp", "@O.tmp"]])
+                opts.insert(rng.below(len(opts) + 1), extra)
+            for _ in range(rng.below(4)):
+                kind = rng.below(8)
+                if kind == 0 and opts:                                   # another case for one token
+                    u = rng.choice(opts)
+                    j = rng.below(len(u))
+                    if "@" not in u[j]:
+                        u[j] = rng.choice([u[j].upper(), u[j].title(), u[j].swapcase()])
+                elif kind == 1 and opts:                                 # an option once more, somewhere
+                    u = list(rng.choice(opts))
+                    opts.insert(rng.below(len(opts) + 1), u)
+                elif kind == 2 and opts:                                 # a value dropped
+                    u = rng.choice(opts)
+                    if len(u) == 2:
+                        del u[1]
+                elif kind == 3 and opts:                                 # a value replaced
+                    u = rng.choice(opts)
+                    if len(u) == 2 and "@" not in u[1]:
+                        pool = (near_misses(u[1])[:8] if u[1] else []) + FEATURE_VALUES + VERBOSE_VALUES + ["", "-", "--"]
+                        u[1] = rng.choice(pool)
+                elif kind == 4 and opts:                                 # an option name replaced by a near miss
+                    u = rng.choice(opts)
+                    n = u[0]
+                    # (every replacement still begins with a dash: no edit creates a stray positional word)
+                    u[0] = rng.choice([n[:-1], n + "s", "--" + n[2:].replace("-", "_"), "-" + n, n[1:], n.upper(), n[:3]])
+                elif kind == 5:                                          # help / version / -- somewhere
+                    opts.insert(rng.below(len(opts) + 1), [rng.choice(["--", "--help", "-h", "-V", "--version", "--help-markdown"])])
+                elif kind == 6 and opts:                                 # space form -> = form
+                    u = rng.choice(opts)
+                    if len(u) == 2:
+                        u[:] = [u[0] + "=" + u[1]]
+                elif kind == 7 and opts:                                 # an option dropped
+                    del opts[rng.below(len(opts))]
+            behind = rng.chance(1, 4)
+            flat = [t for u in opts for t in u]
+            cut = rng.below(len(opts) + 1) if behind else len(opts)
+            front = [t for u in opts[:cut] for t in u]
+            back = [t for u in opts[cut:] for t in u]
+            return front + dump + back, kw
+
+        for _ in range(120 if not thorough else 1500):
+            toks, kw = fuzz_vector()
+            has = lambda ph: any(ph in t for t in toks)
+            # (input specs of its own: should an unforeseen vector make the tool write to its input, only this family reads it again)
+            argv_case("argv_mutated", "F", toks, rng.choice(["M:test.dmp:1:0", "M:test.dmp:1:0", "MS:0:1:0", "M:invalid-range.dmp:1:0", "X:absent"]),
+                      modes="c" if has("@C") else "-", out="g" if has("@O") else "-", log_="g" if has("@L") else "-")
         if thorough:
             # G. logging options, no-op flags, evil json, both symbol path styles at once
             for _ in range(1500):
@@ -757,6 +827,14 @@ class C20(PropBase):
                 return "status 0 without a report"
             if ex == "1" and stderr == 0:
                 return "status 1 without a diagnostic on standard error"
+            return None
+        if tag == "F":
+            # what holds for every command line whatsoever (status 101 / signal / timeout / other codes: judged above)
+            if ex == "0":
+                return None if any(sink_len(x) for _n, x in outputs) else "status 0 but nothing was written anywhere"
+            for nm, x in outputs:
+                if sink_len(x):
+                    return "status %s but %d bytes on %s" % (ex, sink_len(x), nm)
             return None
         if tag == "R" or (tag == "N" and ex != "0"):
             rejected = True
@@ -881,8 +959,7 @@ class C20(PropBase):
                 c = parse_case(case)
                 a = parse_answer(ans)
                 if a["lib"] in ("R", "P", "O"):
-                    pred = model[i].split("|")["RPO".index(a["lib"])].split(";")
-                    bad = self.compare(c, a, pred)
+                    bad = self.compare_case(c, a, model[i])
                     if bad == "skip":
                         continue
                     compared += 1
@@ -910,17 +987,36 @@ class C20(PropBase):
         ctx["info"]["process_runs"] = sum(1 for answers in ctx["impl"].values() for x in answers if x)
         return vio
 
-    def compare_diag(self, c, a, dk, p_ld):
+    def compare_case(self, c, a, model_line):
+        """selects the model's column by what the library does with the file the COMMAND LINE names as the minidump.  The harness
+        reads @D without symbols; for a raw command line the model says what the parser made of it (4th field): the minidump is
+        another word (a file that does not exist: column R), or symbol sources are given (the reports then are not the
+        reference's: only status, existence and emptiness are compared)."""
+        cols = model_line.split("|")
+        info = cols[3] if len(cols) > 3 else "-"
+        col = "RPO".index(a["lib"])
+        if info == "3":
+            col = 0
+            a = dict(a, lib="R", logc="-" if a.get("logc") in ("L", "L+") else a.get("logc", "-"),
+                     errc="-" if a.get("errc") in ("L", "L+", "1") else a.get("errc", "-"))
+        pred = cols[col].split(";")
+        return self.compare(c, a, pred, names=(info != "2"))
+
+    def compare_diag(self, c, a, dk, p_ld, p_sd="-"):
         """WHAT the run says, on which channel: the model names the one diagnostic of the run (dk: 1 main's own rejection, 2 read
         error, 3 processing error - all three through the logger; 4 main's `Error: <io error>` and 5 clap's usage error - straight
         to standard error); the harness classifies the bytes of the log file and of standard error against the line main.rs
         builds from the LIBRARY's error (`ERROR <name> - Error reading|processing dump: <err>`, computed in-process)."""
         if "logc" not in a or a["exit"] == "101" or a["exit"].startswith("sig") or a["exit"] == "timeout" or c["lim"] or c["ldi"]:
             return None          # (--use-local-debuginfo has a fatal message of its own and is outside the model)
+        tag = c["argv"][1] if c.get("argv", "-") != "-" else None
         logger_on = c["verbose"] != "off"
+        if tag == "F":
+            # a mutated command line: the level is whatever the vector says; the model knows (stderr_diag / log_diag)
+            logger_on = (p_sd == "1" or p_ld == "1") if dk in (1, 2, 3) else True
         # at the levels off / error nothing but main()'s fatal message is logged - except by the library's own error! calls
         # (--evil-json, local debuginfo, a malformed Linux memory map in a mutated dump)
-        exact = c["verbose"] in ("e", "error", "off") and c["input"][0] in "FSX" and not c["evil"] and not c["ldi"]
+        exact = c["verbose"] in ("e", "error", "off") and c["input"][0] in "FSX" and not c["evil"] and not c["ldi"] and tag != "F"
         want = {1: "1", 2: "L", 3: "L"}.get(dk) if logger_on else None
         ok_logger = {want, "L+"} if (want == "L" and not exact) else {want}
         logc, errc = a["logc"], a["errc"]
@@ -944,7 +1040,7 @@ class C20(PropBase):
                 return "standard error holds %s, model: %s (diagnostic kind %d)" % (DIAG_NAMES.get(errc, errc), DIAG_NAMES[want_err], dk)
         return None
 
-    def compare(self, c, a, pred):
+    def compare(self, c, a, pred, names=True):
         p_exit, p_stdout, p_out, p_cy, p_log, p_sd, p_ld, p_rec, p_sym, p_dk = pred
         winner = None
         if p_sym != "-":
@@ -1010,6 +1106,10 @@ class C20(PropBase):
             w = want + (p_rec if want in ("H", "HB", "J", "JP") else "")
             if winner and want in ("H", "HB", "J", "JP"):
                 w += "@" + winner
+            if not names and want in ("H", "HB", "J", "JP"):
+                if s[0] == 0:
+                    return "%s is empty, model: %s" % (nm, w)
+                continue          # symbol sources the reference does not have: presence only
             if w not in s[2]:
                 return "%s equals %s, model: %s" % (nm, "+".join(sorted(s[2])) or "no rendering", w)
         if a["log"] != "n/a":
@@ -1017,7 +1117,7 @@ class C20(PropBase):
                 return "log file %s, model %s" % (a["log"], p_log)
             if p_ld == "1" and a["log"] in ("-", "0"):
                 return "no diagnostic in the log file, model: one"
-        bad = self.compare_diag(c, a, int(p_dk), p_ld)
+        bad = self.compare_diag(c, a, int(p_dk), p_ld, p_sd)
         if bad:
             return bad
         if p_sd == "1" and a["stderr"] == "0":
